@@ -65,7 +65,8 @@ mut("s9-spawn-2n", "for i := 0; i < c.Concurrency; i++ {", "for i := 0; i < 2*c.
 # benign edits: must stay silent
 mut("benign-rename-locals", "ongoing := 0", "executing := 0", [], benign=True,
     edits=[dict(file=F, old="\t\t\tongoing++\n", new="\t\t\texecuting++\n"), dict(file=F, old="\t\t\tongoing--\n", new="\t\t\texecuting--\n"),
-           dict(file=F, old="idleWorkers(s.concurrency, ongoing)", new="idleWorkers(s.concurrency, executing)")])
+           dict(file=F, old="idleWorkers(s.concurrency, ongoing)", new="idleWorkers(s.concurrency, executing)"),
+           dict(file=F, old="ready.Len() > 0 && ongoing < s.concurrency", new="ready.Len() > 0 && executing < s.concurrency")])
 mut("benign-new-state-field", "\t\t\t\t\tConcurrency: s.concurrency,\n", "\t\t\t\t\tConcurrency: s.concurrency,\n\t\t\t\t\tTotal:       pending + 0,\n", [], benign=True,
     edits=[dict(file="scheduler/emitter.go", old="\tConcurrency int\n}", new="\tConcurrency int\n\t// Total.\n\tTotal int\n}")])
 mut("benign-new-select-arm", "\t\tcase <-tickerC:", "\t\tcase <-s.quit:\n\t\t\t_ = 0\n\n\t\tcase <-tickerC:", [], benign=True,
